@@ -79,7 +79,7 @@ def run_model(work, mod, out_edges, workers=8, xmx="6g", timeout=3600, simulate=
     """simulate: (num, depth) or None for exhaustive BFS."""
     res = ModelResult()
     meta = work.fresh("mcmeta")
-    cmd = java_cmd(xmx=xmx, gc="-XX:+UseParallelGC") + ["-metadir", meta, "-noGenerateSpecTE", "-nowarning",
+    cmd = java_cmd(xmx=xmx, gc="-XX:+UseParallelGC", short=False) + ["-metadir", meta, "-noGenerateSpecTE", "-nowarning",
                                                          "-config", mod + ".cfg"]
     if simulate:
         num, depth = simulate
